@@ -6,6 +6,7 @@ From DC Require Import BitMap.Model.
 From DC Require Window.Model.
 From DC Require Grid.Model.
 From DC Require Adjustable.Model.
+From DC Require Graph.UltraGraph Graph.Spec.
 
 Extraction Language OCaml.
 
@@ -16,4 +17,5 @@ Extraction "model.ml"
   BitMap.Model.bitmap_model_entry BitMap.Model.bitmap_orig_entry BitMap.Model.bitmap_spec_entry
   Window.Model.window_model_entry Window.Model.window_spec_entry
   Grid.Model.grid_model_entry Grid.Model.grid_spec_entry
-  Adjustable.Model.adjustable_model_entry Adjustable.Model.adjustable_check_entry.
+  Adjustable.Model.adjustable_model_entry Adjustable.Model.adjustable_check_entry
+  Graph.UltraGraph.ugraph_model_entry Graph.Spec.ugraph_check_entry.
